@@ -53,6 +53,10 @@ PointsAgree == /\ meth = "bet" => \A i \in 1..3 : RMul(par[1], BetX(par[2][1], p
                      LET f == BetPoint(par[1], par[2][1], pts[i]) IN RMul(RMul(f[1], f[2]), RMul(f[3], f[4]))
                /\ meth = "lang" => \A i \in 1..3 : RMul(par[1], LangX(par[2], pts[i])) =
                      LET f == LangPoint(par[1], par[2], pts[i]) IN RMul(RMul(f[1], f[2]), f[3])
+\* the integer test for "n (1 - p) increases" is the rational definition
+RoqMonotone == meth = "bet" => \A i \in 1..2 :
+                  RoqStrictUp(pts[i], pts[i + 1]) <=> RLt(RMul(RMul(par[1], BetX(par[2][1], pts[i])), RSub(One, pts[i])),
+                                                         RMul(RMul(par[1], BetX(par[2][1], pts[i + 1])), RSub(One, pts[i + 1])))
 \* monolayer pressure: p_m = 1 / (sqrt(C) + 1) is where the BET loading equals n_m
 Monolayer == meth = "bet" => RMul(par[1], BetX(par[2][1], RProd(Expect.p_monolayer))) = par[1]
 =============================================================================
